@@ -13,7 +13,7 @@ Every case writes a real input file, parses it with the real DASSH_Input
 (acceptance question), builds the RoddedRegion with the real
 region_rodded.make exactly like Assembly does (template at flow -1), and per
 Reynolds level follows the Reactor path:
-    template.clone(new_flowrate) -> _init_static_correlated_params(T)
+    template.clone() + _setup_flowrate(flow) -> _init_static_correlated_params(T)
     -> _update_coolant_int_params(T)
 The flow rate is chosen such that the bundle Reynolds number the code
 computes equals the target (exactly, by ulp search, for the "=" levels).
@@ -64,6 +64,9 @@ M_EXP = {'laminar': 1.0, 'turbulent': 0.18}     # Cheng-Todreas Re exponents
 #              The log-sensitivity of t_i = f_i L/De_i + K to x_i is
 #              -m_eff + (1/psi + 1/(1-psi)) / (3 ln(Re_iT/Re_iL)) <~ 15 for
 #              psi in [0.01, 0.99], giving <= 2*15*(few)1e-5 ~ 1e-3.
+#              (This presumes x1, x3 have settled like x2, which is what a
+#              converged iteration means; a scratch copy whose stop rule tests all
+#              three components passes this tolerance on the whole alphabet.)
 #  TOL_BUNDLE: identity between closed-form split and bundle constant (pow chain)
 TOL_SUM = 1e-12
 TOL_CLOSED = 1e-12
@@ -84,7 +87,10 @@ def designs(tier):
     # (degenerate corner subchannel), so 'mid' is the reference clearance
     if tier == 'quick':
         add(3, 1.2, 30.0)
+        add(2, 1.08, 8.0)
+        add(4, 1.42, 52.0)
         add(2, 1.2, 0.0, wire=False, clr='mid')
+        add(3, 1.08, 0.0, wire=False, clr='mid')
         return out
     for rings in (2, 4, 8):
         for pd in (1.02, 1.08, 1.2, 1.42, 1.6):
@@ -120,7 +126,7 @@ def reader_cases(tier):
     out = []
     ds = designs(tier)
     if tier != 'quick':
-        ds = [d for d in ds if d['hd'] in (0.0, 30.0) and d['clr'] == 'tight']
+        ds = [d for d in ds if d['hd'] in (0.0, 30.0) and d['clr'] in ('tight', 'mid')]
     for d in ds:
         for g in ('REH-defsol', 'CDD-defsol'):
             c = dict(d)
@@ -251,24 +257,36 @@ def ct_step(ref, re_b, x, ktot):
     return np.array([r1 * x2, x2, r3 * x2])
 
 
-def ct_classify(ref, re_b, x_code, ktot):
-    """why is the returned split not a solution?  Emulates the code's stop
-    rule (start at 1, stop when |dx2| < 1e-5, at most 100 steps) with the
-    harness formulas; used only to label a violation, never to decide one."""
+def ct_emulate(ref, re_b, ktot):
+    """the code's iteration (start at 1, stop when |dx2| < 1e-5, at most 100
+    steps, return the NEW point) with harness formulas; None = limit reached"""
     x = np.ones(3)
-    stopped = None
-    for it in range(100):
+    for _ in range(100):
         xn = ct_step(ref, re_b, x, ktot)
         if abs(xn[1] - x[1]) < 1e-5:
-            stopped = it
-            break
+            return xn
         x = xn
-    if stopped is None:
+    return None
+
+
+def ct_classify(ref, ref_ff, re_b, x_code, ktot):
+    """label (never decide) a gradient mismatch:
+    foreign-friction : the returned split is what the iteration gives with the
+                       regime bounds / Cf_i of the FRICTION correlation
+    approx-fallback  : with own constants the stop rule is not met in 100 steps
+    early-stop       : own constants, stop rule met, but the returned point
+                       still moves by > 1e-5 under one more step"""
+    own = ct_emulate(ref, re_b, ktot)
+    if own is not None and float(np.max(np.abs(own - x_code))) < 1e-9:
+        move = float(np.max(np.abs(ct_step(ref, re_b, x_code, ktot) - x_code)))
+        return ('early-stop' if move > 1e-5 else 'other'), move
+    if ref_ff is not None:
+        mixed = ct_emulate(ref_ff, re_b, ktot)
+        if mixed is None or float(np.max(np.abs(mixed - x_code))) < 1e-9:
+            return 'foreign-friction', None
+    if own is None:
         return 'approx-fallback', None
-    move = float(np.max(np.abs(ct_step(ref, re_b, x_code, ktot) - x_code)))
-    if move > 1e-5:
-        return 'early-stop', move
-    return 'other', move
+    return 'other', None
 
 
 def spread(g):
@@ -348,9 +366,15 @@ def run_case(c):
            'CTS': (bnd['bLc'], bnd['bT']), 'ENG': (400.0, 5000.0)}
     ref = None
     ref_err = None
+    ref_ff = None
     if c['fs'] in CT:
         try:
             ref = ct_reference(tmpl, c['fs'], nsc)
+            if c['ff'] in CT and c['ff'] != c['fs']:
+                # what the split would use if it took the friction correlation's
+                # bounds and Cf_i (labelling only)
+                other = ct_reference(tmpl, c['ff'], nsc)
+                ref_ff = dict(ref, cf=other['cf'], bl=other['bl'], bt=other['bt'])
         except Exception as e:          # constants cannot be formed: reported per level
             ref_err = e
     grouped = {}
@@ -383,14 +407,17 @@ def run_case(c):
                 'regime_ff': regime_of(re_pred, *own[c['ff']]) if c['ff'] in own else 'n/a'}
         r['states'] += 1
         # ---- the Reactor path: clone with the flow rate, static params, update
+        # (clone(new_flowrate=fr) == clone() + _setup_flowrate(fr) +
+        #  _setup_ht_constants(); the heat-transfer constants play no role here)
         try:
-            reg = tmpl.clone(new_flowrate=fr)
+            reg = tmpl.clone()
+            reg._setup_flowrate(fr)
         except BaseException as e:
-            bad('crash-clone', lab, info, 'clone(new_flowrate) raised %s: %s'
+            bad('crash-clone', lab, info, 'clone() raised %s: %s'
                 % (type(e).__name__, str(e)[:160]), site=site_of(e))
             cnt(ex['levels'], 'crash-clone')
             continue
-        r['transitions'] += 1
+        r['transitions'] += 2
         try:
             reg._init_static_correlated_params(T_EVAL)
         except BaseException as e:
@@ -446,7 +473,7 @@ def run_case(c):
             bad('ff-not-positive-finite', lab, info,
                 'bundle friction factor must be finite and > 0', repr(P['ff']), '> 0',
                 site='ff:' + c['ff'])
-        if not crashed_update:
+        if not crashed_update and okX:      # a NaN split (reported above) propagates
             eddy = float(P['eddy'])
             sw = np.asarray(P['swirl'], dtype=float)
             if not (math.isfinite(eddy) and eddy >= 0.0 and np.all(np.isfinite(sw))
@@ -481,19 +508,18 @@ def run_case(c):
                     if grid_on and 'grid' not in reg.corr:
                         kind, why = 'grid-loss-ignored-by-split', \
                             'split evaluated without grid=True although a grid is present'
-                    elif c['ff'] in CT and c['ff'] != c['fs']:
-                        kind, why = 'dpdz-not-equal-foreign-friction', \
-                            'split iterated with the constants of the friction correlation'
                     elif not np.all(np.isfinite(g)):
                         kind, why = 'dpdz-not-equal', 'non-finite gradient'
                     else:
-                        lab_, move = ct_classify(ref, re_pred, X, ktot)
+                        lab_, move = ct_classify(ref, ref_ff, re_pred, X, ktot)
                         kind = 'dpdz-not-equal' + ('' if lab_ == 'other' else '-' + lab_)
-                        why = {'approx-fallback': 'iteration does not meet its stop rule in 100 steps; '
+                        why = {'foreign-friction': 'split iterated with the regime bounds / Cf_i of the '
+                                                   'friction correlation',
+                               'approx-fallback': 'iteration does not meet its stop rule in 100 steps; '
                                                   'approximate formula used',
                                'early-stop': 'iteration stopped on |dx2|<1e-5 while another component '
                                              'still moves by %.2e per step' % (move or 0.0),
-                               'other': 'returned split is a fixed point of the harness iteration'}[lab_]
+                               'other': 'unexplained'}[lab_]
                     bad(kind, lab, info,
                         'pressure gradient (friction%s) differs between subchannel types: '
                         'relative spread %.3e; %s' % (' + grid' if grid_on else '', sp, why),
